@@ -6,6 +6,7 @@
 From Coq Require Import ZArith List Bool Lia.
 From FV Require Import Base.Res Base.Bytes Model.ThriftBin Proofs.ThriftBinProofs Proofs.ThriftBinGoProofs Model.GoGenPlan Proofs.GoGenPlanProofs.
 From FV Require Import Model.ThriftCompact Proofs.ThriftCompactProofs.
+From FV Require Import Model.DfxGoGenPlan Proofs.DfxGoGenPlanProofs.
 Import ListNotations.
 Open Scope Z_scope.
 
@@ -91,24 +92,64 @@ Theorem c02_write_well_typed : forall e t v,
 Proof. exact go_struct_roundtrip. Qed.
 Print Assumptions c02_write_well_typed.
 
-(** "through typedefs and includes" is REFUTED for the current code (F15, known finding): the
-    generator's typedef resolution (parser.Frugal.UnderlyingType, Model/GoGenPlan.v) continues a
-    chain found in an included file in the including file's scope.  Full statement that fails:
+(** "through typedefs and includes".
+
+    The PINNED generator's typedef resolution (parser.Frugal.UnderlyingType before "fix:
+    UnderlyingType follows a typedef found in an include in that include's scope and qualifies the
+    result", Model/GoGenPlan.v [underlying_go]) continued a chain found in an included file in the
+    including file's scope (F15; the known finding F15-go is stale: the probe
+    typedef_chain_through_include of tools/props/c02.py builds now).  Statement that failed:
       forall p cur t fuel, wire_go fuel p cur t = wire_idl fuel p cur t.
     Witness: main includes inc; inc: typedef i32 T; typedef T U; main's field of type inc.U is an
-    I32 (8) by the IDL and a STRUCT (12) for the generator (replayed on the real compiler by the
-    probe typedef_chain_through_include of tools/props/c02.py: the emitted Go does not compile). *)
+    I32 (8) by the IDL and was a STRUCT (12) for the pinned generator. *)
 Theorem c02_typedef_through_include_refuted :
   exists p cur t fuel, wire_idl fuel p cur t = 8 /\ wire_go fuel p cur t = 12.
 Proof. exact f15_refuted. Qed.
 Print Assumptions c02_typedef_through_include_refuted.
 
-(** ... and holds under the exact side condition the quirk forces: every typedef reached through
-    an include has a target that mentions no other declaration. *)
+(** ... and the pinned function was right only under the side condition the quirk forces: every
+    typedef reached through an include has a target that mentions no other declaration. *)
 Theorem c02_typedef_resolution_partial : forall p cur,
   includes_closed p cur -> forall fuel t, wire_go fuel p cur t = wire_idl fuel p cur t.
 Proof. exact underlying_agree. Qed.
 Print Assumptions c02_typedef_resolution_partial.
+
+(** The CURRENT function (Model/DfxGoGenPlan.v [underlying_go_fixed]: the chain is followed in the
+    include's scope, the result renamed by qualifyType) resolves the F15 witnesses as the IDL means
+    them (the pinned function did not) ... *)
+Theorem c02_typedef_through_include_fixed :
+  wire_idl 10 f15_prog 1 (PName (Some 7) 2) = 8 /\ wire_go_fixed 10 f15_prog 1 (PName (Some 7) 2) = 8
+  /\ wire_go 10 f15_prog 1 (PName (Some 7) 2) = 12
+  /\ wire_idl 10 f15_prog_enum 1 (PName (Some 7) 2) = 8
+  /\ wire_go_fixed 10 f15_prog_enum 1 (PName (Some 7) 2) = 8
+  /\ wire_go 10 f15_prog_enum 1 (PName (Some 7) 2) = 12.
+Proof. exact f15_fixed. Qed.
+Print Assumptions c02_typedef_through_include_fixed.
+
+(** ... and agrees with the IDL for every type, chain and fuel whenever the typedef targets of the
+    files that [cur] includes do not name a declaration of a further include (they may be base
+    types, containers, or names of their own file: enums, structs, other typedefs); still partial:
+    the full statement (no side condition) fails, next theorem *)
+Theorem c02_typedef_resolution_fixed_partial : forall p cur,
+  includes_local p cur -> forall fuel t, wire_go_fixed fuel p cur t = wire_idl fuel p cur t.
+Proof. exact underlying_fixed_agree. Qed.
+Print Assumptions c02_typedef_resolution_fixed_partial.
+
+(** left in the code (known findings C11-K1/K2/K3/K9/K10/K11): a typedef of an include that stands
+    for a declaration of the include's own include: qualifyType leaves the far name as it is, and in
+    the asking file it names no include (root includes mid only; mid: include far, typedef far.E T;
+    root's field mid.T is an enum, I32, by the IDL and a STRUCT for the generator) *)
+Theorem c02_typedef_through_transitive_include_refuted :
+  exists p cur t fuel, wire_idl fuel p cur t = 8 /\ wire_go_fixed fuel p cur t = 12.
+Proof. exact transitive_include_refuted. Qed.
+Print Assumptions c02_typedef_through_transitive_include_refuted.
+
+Example c02_includes_local_nonvacuous :
+  includes_local local_prog 1
+  /\ wire_go_fixed 10 local_prog 1 (PName None 3) = 8
+  /\ wire_go 10 local_prog 1 (PName None 3) = 12
+  /\ wire_go_fixed 10 local_prog 1 (PName (Some 7) 4) = 15.
+Proof. exact includes_local_nonvacuous. Qed.
 
 (** args / result structs as base.go synthesises them *)
 Theorem c02_args_no_optional : forall args f, In f (map args_field args) -> fmod f <> MOptional.
